@@ -1063,21 +1063,6 @@ func tplTypeOK(typ string, v tplVal) bool {
 	}
 	return v.K == "s"
 }
-func tplAscii(s string) bool {
-	for i := 0; i < len(s); i++ {
-		if s[i] >= 0x80 {
-			return false
-		}
-	}
-	return true
-}
-func tplMangle(s string) string { // what `currentStr += string(b)` does to a byte >= 0x80
-	var sb strings.Builder
-	for i := 0; i < len(s); i++ {
-		sb.WriteString(string(rune(s[i])))
-	}
-	return sb.String()
-}
 
 // the monitor's reading of a template: every variable must be bound (call value, else default) to a value of its
 // declared type; a string-typed position is interpolated, any other position must be exactly one ${reference}
@@ -1115,18 +1100,11 @@ func tplExpected(c tplCase) tplExpect {
 				e.Reject = "stray $ in " + a.S
 				return a, a
 			}
-			if !tplAscii(lit) {
-				devs["[interpolate-mangles-non-ascii]"] = true
-			}
 			render := func(dev bool) string {
 				var sb strings.Builder
 				pos := 0
 				for _, m := range tplRefRe.FindAllStringIndex(a.S, -1) {
-					if dev {
-						sb.WriteString(tplMangle(a.S[pos:m[0]]))
-					} else {
-						sb.WriteString(a.S[pos:m[0]])
-					}
+					sb.WriteString(a.S[pos:m[0]])
 					pos = m[1]
 					v, ok := env[strings.Trim(a.S[m[0]:m[1]], "${}")]
 					if !ok {
@@ -1154,11 +1132,7 @@ func tplExpected(c tplCase) tplExpect {
 						bad = true
 					}
 				}
-				if dev {
-					sb.WriteString(tplMangle(a.S[pos:]))
-				} else {
-					sb.WriteString(a.S[pos:])
-				}
+				sb.WriteString(a.S[pos:])
 				return sb.String()
 			}
 			plain, dev := render(false), render(true)
@@ -1231,17 +1205,14 @@ func tplExpected(c tplCase) tplExpect {
 
 var tplSnake = map[string]string{"insertedAt": "inserted_at", "updatedAt": "updated_at", "revertedAt": "reverted_at", "firstUsage": "first_usage", "insertionDate": "insertion_date"}
 
-// request fields override template fields override the defaults, one field at a time (fieldwise = the property);
-// !fieldwise = what the code is known to do: every non-null object resets endTime/startTime/expand/pageSize
-func tplMergeParams(c tplCase, fieldwise bool) tplParams {
+// request fields override template fields override the defaults, one field at a time (the property; also what the
+// code does since fix 05-template-params-fieldwise)
+func tplMergeParams(c tplCase) tplParams {
 	col, ord := tplRunDefaults(c.Res)
 	p := tplParams{Column: col, Order: tplOrd(&ord), PageSize: c.Def}
 	for _, j := range []*tplPJ{c.TP, c.RP} {
 		if j == nil || j.Null {
 			continue
-		}
-		if !fieldwise {
-			p.PIT, p.OOT, p.Expand, p.PageSize = nil, nil, nil, 0
 		}
 		if j.End != nil {
 			p.PIT = j.End
@@ -1275,27 +1246,6 @@ func tplMergeParams(c tplCase, fieldwise bool) tplParams {
 	return p
 }
 
-func tplDiffTags(c tplCase, fw, rw tplParams) []string {
-	var tags []string
-	eq := func(a, b *int64) bool { return (a == nil) == (b == nil) && (a == nil || *a == *b) }
-	if !eq(fw.PIT, rw.PIT) {
-		tags = append(tags, "[overwrite-drops-template-pit]")
-	}
-	if !eq(fw.OOT, rw.OOT) {
-		tags = append(tags, "[overwrite-drops-template-oot]")
-	}
-	if strings.Join(fw.Expand, ",") != strings.Join(rw.Expand, ",") {
-		tags = append(tags, "[overwrite-drops-template-expand]")
-	}
-	if fw.PageSize != rw.PageSize {
-		if c.TP != nil && !c.TP.Null && c.TP.PageSize > 0 {
-			tags = append(tags, "[overwrite-drops-template-pagesize]")
-		} else {
-			tags = append(tags, "[template-params-reset-default-pagesize]")
-		}
-	}
-	return tags
-}
 
 type tplPage struct {
 	Items    []string
@@ -1502,7 +1452,7 @@ func (s *tplStack) check(out *Out, ops []Op, id string, c tplCase) {
 	if strings.HasPrefix(run.Err, "panic") {
 		// a panic of the store's filter translation is a defect of the list path itself (C20/C38); here only
 		// "template = direct query" is judged: both must panic alike
-		dfirst, _, _ := s.direct(c.Res, tplExpected(c).Body, tplMergeParams(c, true), c.Max)
+		dfirst, _, _ := s.direct(c.Res, tplExpected(c).Body, tplMergeParams(c), c.Max)
 		if dfirst.Err == run.Err {
 			out.Stats["both_panic"]++
 		} else {
@@ -1521,7 +1471,7 @@ func (s *tplStack) check(out *Out, ops []Op, id string, c tplCase) {
 		return
 	}
 	// params the caller expects (request overrides template field by field); an invalid request sort is a rejection
-	fw, rw := tplMergeParams(c, true), tplMergeParams(c, false)
+	fw := tplMergeParams(c)
 	dfirst, dall, dpages := s.direct(c.Res, exp.Body, fw, c.Max)
 	out.Stats[fmt.Sprintf("pages_%d", min(dpages, 6))]++
 	if dfirst.Err != "" {
@@ -1530,20 +1480,20 @@ func (s *tplStack) check(out *Out, ops []Op, id string, c tplCase) {
 			fmt.Fprintf(os.Stderr, "direct rejected: %s | run: %s | %s\n", dfirst.Err, run.Err, c.sx())
 		}
 		if run.Err == "" {
-			// the known deviations may turn a rejected direct query into an accepted one (a dropped expand/PIT)
-			tags := append(tplDiffTags(c, fw, rw), exp.Devs...)
+			// tags: known deviations that apply to this case (none of them can explain an accepted run today)
+			tags := append([]string{}, exp.Devs...)
 			viol(fmt.Sprintf("[template-accepted-direct-rejected] %s RunQuery answered %s but the direct query is rejected: %s", strings.Join(tags, " "), tplShort(run.Items), dfirst.Err))
 		}
 		return
 	}
 	report := func(what string) {
 		// does the answer equal the direct query under the known deviations of the implementation?
-		tags := append(tplDiffTags(c, fw, rw), exp.Devs...)
+		tags := append([]string{}, exp.Devs...)
 		if len(tags) > 0 {
-			kfirst, kall, _ := s.direct(c.Res, exp.DevBody, rw, c.Max)
+			kfirst, kall, _ := s.direct(c.Res, exp.DevBody, fw, c.Max)
 			rall, rerr := s.follow(id, run, cfg)
 			if kfirst.Err == "" && run.Err == "" && rerr == "" && tplEqStrs(kfirst.Items, run.Items) && kfirst.PageSize == run.PageSize && kfirst.HasMore == run.HasMore && tplEqStrs(kall, rall) {
-				viol(fmt.Sprintf("%s %s; the answer equals the direct query with the template's %s", strings.Join(tags, " "), what, "parameters reset by the request object / literal bytes re-encoded"))
+				viol(fmt.Sprintf("%s %s; the answer equals the direct query with the known deviation applied (out-of-range integer rendered as -2^63)", strings.Join(tags, " "), what))
 				return
 			}
 			if kfirst.Err != "" && run.Err != "" {
@@ -1599,7 +1549,7 @@ func (s *tplStack) follow(id string, first tplPage, cfg common.PaginationConfig)
 	return all, ""
 }
 
-// deterministic witnesses of the refuted readings (Props/C37.v), replayed on the real code
+// deterministic witnesses (the former refutation witnesses of Props/C37.v, now regression cases, + the int overflow finding)
 func tplWitnesses() []struct {
 	ops []Op
 	c   tplCase
@@ -1621,15 +1571,15 @@ func tplWitnesses() []struct {
 			c   tplCase
 		}{ops, c})
 	}
-	// C37_overwrite_fieldwise_refuted: template endTime, request pageSize only -> the point in time is dropped
+	// C37_overwrite_fieldwise: template endTime, request pageSize only -> the point in time must be kept (fix 05)
 	add(tplCase{Res: "transactions", TP: &tplPJ{End: &t2}, RP: &tplPJ{PageSize: 5}})
-	// template without pageSize resets the configured default page size (here 3) to the store's 15
+	// C37_default_pagesize: a template object without pageSize keeps the configured default page size (here 3) (fix 05)
 	c := tplCase{Res: "transactions", TP: &tplPJ{Sort: "timestamp:asc"}}
 	out = append(out, struct {
 		ops []Op
 		c   tplCase
 	}{ops, tplCase{Res: c.Res, TP: c.TP, Max: 1000, Def: 3}})
-	// literal non-ASCII bytes of a string-typed filter value are re-encoded
+	// literal non-ASCII bytes of a string-typed filter value must arrive unchanged (fix 06)
 	add(tplCase{Res: "transactions", Body: &tplNode{Kind: "leaf", Op: "match", Key: "metadata[k1]", Val: tplJV{A: tplAtom{K: "s", S: "\xc3\xa9 z"}}}})
 	// an integral variable >= 2^63 interpolated into a string
 	add(tplCase{Res: "accounts", Body: &tplNode{Kind: "leaf", Op: "match", Key: "address", Val: tplJV{A: tplAtom{K: "s", S: "acct:${n}"}}},
